@@ -1,5 +1,7 @@
 //go:build verif
 
+//go:debug randseednop=0
+
 package main
 
 import (
@@ -12,5 +14,6 @@ import (
 func init() {
 	vh.Register("ring", bbr.NewVerifRing)
 	vh.Register("pnq", bbr.NewVerifPnq)
+	vh.Register("bbr", bbr.NewVerifBbr)
 	vh.RegisterConsts(bbr.VerifConstsC12)
 }
